@@ -290,8 +290,89 @@ def _rows(sim, table):
             sa.text('SELECT name, definition, spec FROM %s' % table))]
 
 
+_EXPR_DICTS_TASK = ('input', 'publish', 'publish-on-error', 'publish-on-skip')
+_EXPR_DICTS_WF = ('output', 'vars')
+
+
+def _expression_leaves(kind, parsed):
+    """(path, string) for every direct string value of the mappings the
+    language documents as expression-bearing: task input / publish /
+    publish-on-error / publish-on-skip, transition-level publish scopes,
+    workflow output / vars, ad-hoc action base-input."""
+    out = []
+    if not isinstance(parsed, dict):
+        return out
+    if kind == 'wb':
+        wfs = parsed.get('workflows') or {}
+        acts = parsed.get('actions') or {}
+    elif kind == 'wf':
+        wfs = {k: v for k, v in parsed.items() if k != 'version'}
+        acts = {}
+    else:
+        wfs = {}
+        acts = {k: v for k, v in parsed.items() if k != 'version'}
+
+    def direct(path, d):
+        if isinstance(d, dict):
+            for k, v in d.items():
+                if isinstance(v, str):
+                    out.append((path + (str(k),), v))
+    if isinstance(wfs, dict):
+        for wn, wf in wfs.items():
+            if not isinstance(wf, dict):
+                continue
+            for key in _EXPR_DICTS_WF:
+                direct((str(wn), key), wf.get(key))
+            tasks = wf.get('tasks')
+            groups = list(tasks.items()) if isinstance(tasks, dict) else []
+            if isinstance(wf.get('task-defaults'), dict):
+                groups.append(('task-defaults', wf['task-defaults']))
+            for tn, t in groups:
+                if not isinstance(t, dict):
+                    continue
+                for key in _EXPR_DICTS_TASK:
+                    direct((str(wn), str(tn), key), t.get(key))
+                for cl in ('on-success', 'on-error', 'on-complete',
+                           'on-skip'):
+                    c = t.get(cl)
+                    if isinstance(c, dict) and isinstance(
+                            c.get('publish'), dict):
+                        for scope in ('branch', 'global', 'atomic'):
+                            direct((str(wn), str(tn), cl, 'publish', scope),
+                                   c['publish'].get(scope))
+    if isinstance(acts, dict):
+        for an, a in acts.items():
+            if isinstance(a, dict):
+                direct((str(an), 'base-input'), a.get('base-input'))
+    return out
+
+
+def _malformed_expressions(kind, parsed):
+    """Leaves of an *accepted* definition that the expression validator
+    itself rejects when asked about that one string."""
+    from mistral import expressions as expr
+    from mistral import exceptions as exc
+    bad = []
+    for path, v in _expression_leaves(kind, parsed):
+        if '<%' not in v and '{{' not in v and '{%' not in v:
+            continue
+        try:
+            expr.validate(v)
+        except exc.MistralException as e:
+            bad.append({'path': list(path), 'value': v[:80],
+                        'error': str(e)[:100]})
+        except Exception:
+            pass      # an internal error there is the totality check's case
+    return bad
+
+
 def _accepted_checks(kind, text, parsed, viol, checks, sim, parser, ctx):
     import yaml
+    bad = _malformed_expressions(kind, parsed)
+    checks.append('expression_leaves')
+    if bad:
+        viol.append({'kind': 'accepted-definition-with-malformed-expression',
+                     'detail': {'leaves': bad[:3]}})
     wf_rows = {r['name']: r for r in _rows(sim, 'workflow_definitions_v2')}
     act_rows = {r['name']: r for r in _rows(sim, 'action_definitions_v2')}
     # ---- what was written
